@@ -100,6 +100,70 @@ pub fn minimise(code: &[u8], budget: usize, mut fails: impl FnMut(&[u8]) -> bool
         }
     }
 
+    // Phase 2b: remove runs of filler and re-point the jump targets behind
+    // them (PUSH1/PUSH2 immediates that name an offset after the run). The
+    // predicate decides whether the rewrite kept the failure.
+    loop {
+        if spent >= budget {
+            break;
+        }
+        let ins = split(&best);
+        // Find the longest run of single-byte JUMPDEST filler (keep one).
+        let mut offs = Vec::with_capacity(ins.len());
+        let mut at = 0usize;
+        for i in &ins {
+            offs.push(at);
+            at += i.len();
+        }
+        let mut best_run: Option<(usize, usize)> = None; // (first index, count)
+        let mut i = 0;
+        while i < ins.len() {
+            if ins[i].len() == 1 && ins[i][0] == op::JUMPDEST {
+                let mut j = i;
+                while j < ins.len() && ins[j].len() == 1 && ins[j][0] == op::JUMPDEST {
+                    j += 1;
+                }
+                if j - i >= 2 && best_run.map_or(true, |(_, c)| j - i > c) {
+                    best_run = Some((i, j - i));
+                }
+                i = j;
+            } else {
+                i += 1;
+            }
+        }
+        let Some((first, count)) = best_run else { break };
+        let removed = count - 1;
+        let run_start = offs[first];
+        let mut cand: Vec<Vec<u8>> = Vec::with_capacity(ins.len() - removed);
+        for (k, instr) in ins.iter().enumerate() {
+            if k > first && k < first + count {
+                continue;
+            }
+            let mut instr = instr.clone();
+            let opc = instr[0];
+            if (opc == op::PUSH1 || opc == op::PUSH1 + 1) && instr.len() == (opc - op::PUSH1) as usize + 2 {
+                let v: usize = instr[1..].iter().fold(0usize, |a, b| (a << 8) | *b as usize);
+                if v > run_start {
+                    let nv = if v < run_start + count { run_start } else { v - removed };
+                    if opc == op::PUSH1 {
+                        instr[1] = nv as u8;
+                    } else {
+                        instr[1] = (nv >> 8) as u8;
+                        instr[2] = (nv & 0xff) as u8;
+                    }
+                }
+            }
+            cand.push(instr);
+        }
+        let bytes = join(&cand);
+        spent += 1;
+        if !bytes.is_empty() && fails(&bytes) {
+            best = bytes;
+        } else {
+            break;
+        }
+    }
+
     // Phase 3: truncate the tail.
     let mut ins = split(&best);
     while ins.len() > 1 && spent < budget {
